@@ -211,7 +211,7 @@ for _p in BIN_PROPS:
     REGISTRY[_p] = with_binary(REGISTRY[_p])
 
 # facts observed by truly concurrent clients (harness/concprobe, RowsLock.tla) that must hold for every interleaving
-CONC_PROPS = {"C01", "C05", "C08", "C11", "C16"}
+CONC_PROPS = {"C01", "C05", "C06", "C07", "C08", "C11", "C16"}
 
 
 def with_conc(fn):
